@@ -6,6 +6,7 @@ package model
 
 import (
 	"fmt"
+	"math"
 
 	"github.com/basecomplextech/spec/internal/lang/syntax"
 )
@@ -20,6 +21,9 @@ func newField(pfield *syntax.Field) (*Field, error) {
 	tag := pfield.Tag
 	if tag == 0 {
 		return nil, fmt.Errorf("zero tag")
+	}
+	if tag < 0 || tag > math.MaxUint16 {
+		return nil, fmt.Errorf("invalid tag %d, must be in range [1, %d]", tag, math.MaxUint16)
 	}
 
 	type_, err := newType(pfield.Type)
